@@ -263,7 +263,7 @@ def exec_case(case, facts, src=None):
 
     if mode == "input_fault":
         cfg, ods, opts = faults.apply_fault(world, opts, case["fault"])
-        w = runner.World("c18i")
+        w = runner.World("c18i", opts.get("cwd_shape"))
         core.fix_outdir(w, opts)
         from .c12 import _files_for  # pylint: disable=import-outside-toplevel
 
